@@ -43,7 +43,8 @@ def run(chk):
     chk.assumptions = ["IEEE rounding is modelled, not verified: theorems are over exact complex numbers; "
                        "impl/model/oracle amplitudes compared with absolute tolerance 1e-9",
                        "libm cos/sin/sqrt/exp as linked"]
-    chk.prove()
+    import translate_tables
+    chk.prove(generated=[translate_tables.gate_matrices, translate_tables.builtins])
     nmax = 6 if chk.thorough else 4
     nrand = 1500 if chk.thorough else 150
     histories = [(n, p, ops) for (n, p, ops) in simlib.systematic_gate_cases(nmax, chk.rng)]
